@@ -111,12 +111,12 @@ func (s *RefStore) Add(index int, w float64) {
 	if w == 0 {
 		return
 	}
-	if g, ok := GranOf(w); ok {
+	if g, ok := GranOf(w); ok && g >= -45 {
 		if g < s.Gran {
 			s.Gran = g
 		}
 	} else {
-		s.Tainted = true
+		s.Tainted = true // not a weight of the exact regime (arbitrary, or finer than the finest granule)
 	}
 	s.Exact[index] += w
 }
